@@ -151,6 +151,11 @@ func Check(rec *Record) []Finding {
 		if (at.DialRefuse || preFails(at.Plan.Pre)) && ar.StreamNil {
 			add("C06", "stream-nil-on-connect-failure:"+at.Plan.Pre, fmt.Sprintf("attempt %d: connection setup failed (%s) but Stream returned nil", i, at.Plan.Pre))
 		}
+		if at.Cancel == nil && at.BlockAt < 0 && at.Plan.At < 0 && at.Plan.Pre == "" && !at.DialRefuse && i == 0 && ar.StreamNil && !ar.HandlerErr {
+			if full0 := expected(sc.Hist, sc.StartFile, sc.StartPos); full0.stop != nil {
+				add("C06", "stream-nil-on-undecodable-event", fmt.Sprintf("attempt %d: the binlog holds an event that cannot be decoded (%s at packet %d) but Stream returned nil", i, full0.stop.Why, full0.stop.Index))
+			}
+		}
 		if at.Cancel == nil && at.BlockAt < 0 && (at.Plan.Kind == "inject" || at.Plan.Kind == "replace") && at.Plan.At >= 0 && ar.StreamNil && !ar.HandlerErr {
 			add("C06", "stream-nil-on-bad-event", fmt.Sprintf("attempt %d: an unsupported / invalid event was injected at packet %d but Stream returned nil", i, at.Plan.At))
 		}
@@ -197,6 +202,9 @@ func Check(rec *Record) []Finding {
 				case c.Code == ref.ComBinlogDump && stage == 1:
 					stage = 2
 					d := c.Dump
+					if sc.Attempts[i].Plan.Pre == "err_query" {
+						add("C07", "dump-after-failed-set", fmt.Sprintf("attempt %d: the master answered the SET @master_binlog_checksum query with an error, yet a dump was requested", i))
+					}
 					if d.Flags&1 != 0 {
 						add("C07", "dump-nonblocking", fmt.Sprintf("attempt %d: dump request is non-blocking (flags %#x)", i, d.Flags))
 					}
